@@ -4,6 +4,8 @@ import datetime as dt
 
 from uberjob._value_store import ValueStore
 
+from simkit import fs
+
 RT = [None]  # current Runtime (set by the machine for each process lifetime)
 
 
@@ -141,12 +143,18 @@ class FileDisk(Disk):
     uberjob's own PickleFileStore (through the syscall fault layer), with
     modified times on the virtual clock.  Everything else stays in memory."""
 
-    def __init__(self, scratch, file_names, touch=(), siblings=False):
+    def __init__(self, scratch, file_names, touch=(), siblings=False, symlinks=()):
         super().__init__()
         self.scratch = scratch
         self.file_names = set(file_names)
+        self.symlinks = set(symlinks)  # store paths that start life as (dangling) symbolic links to another place
         self.touch = set(touch)        # stores that are TouchFileStore files (they hold None)
         self.siblings = siblings       # pathlib paths, pairs of stores sharing a stem (x.pkl / x.dat)
+        import os
+
+        for name in sorted(self.symlinks & self.file_names):
+            p = str(self.path(name))
+            fs.REAL["symlink"](os.path.join(scratch, "elsewhere-" + os.path.basename(p)), p)
 
     def path(self, name):
         import os
@@ -182,7 +190,7 @@ class FileDisk(Disk):
 
         if name in self.file_names:
             try:
-                os.remove(self.path(name))
+                fs.REAL["remove"](self.path(name))
             except FileNotFoundError:
                 pass
         else:
@@ -217,6 +225,9 @@ class FileDisk(Disk):
         files = {}
         for fn in os.listdir(self.scratch):
             p = os.path.join(self.scratch, fn)
+            if os.path.islink(p):
+                files[fn] = ("->", os.readlink(p))
+                continue
             with open(p, "rb") as f:
                 files[fn] = (f.read(), os.stat(p).st_mtime_ns)
         return (dict(self.data), self.last, self.now, files)
@@ -228,9 +239,12 @@ class FileDisk(Disk):
         self.last = snap[1]
         self.now = snap[2]
         for fn in os.listdir(self.scratch):
-            os.remove(os.path.join(self.scratch, fn))
+            fs.REAL["remove"](os.path.join(self.scratch, fn))
         for fn, (b, ns) in snap[3].items():
             p = os.path.join(self.scratch, fn)
-            with open(p, "wb") as f:
+            if b == "->":
+                fs.REAL["symlink"](ns, p)
+                continue
+            with fs.real_open(p, "wb") as f:    # the harness's own writes bypass the fault layer
                 f.write(b)
             os.utime(p, ns=(ns, ns))
